@@ -1554,17 +1554,20 @@ class Parameter(_ParameterBase):
         item in a list).
         """
         name = self.name
+        relink = None
         if obj is not None and self.allow_refs and obj._param__private.initialized:
             syncing = name in obj._param__private.syncing
             ref, deps, val, is_async = obj.param._resolve_ref(self, val)
             refs = obj._param__private.refs
             if ref is not None:
-                self.owner.param._update_ref(name, ref)
+                relink = partial(self.owner.param._update_ref, name, ref)
             elif name in refs and not syncing:
                 # A plain value ends the link: drop the reference together
                 # with the watchers installed on its sources.
-                obj.param._update_ref(name, None)
+                relink = partial(obj.param._update_ref, name, None)
             if is_async or val is Undefined:
+                if relink is not None:
+                    relink()
                 return
 
         # Deprecated Number set_hook called here to avoid duplicating setter
@@ -1607,6 +1610,9 @@ class Parameter(_ParameterBase):
                     )
                 _old = obj._param__private.values.get(name, self.default)
                 obj._param__private.values[name] = val
+        if relink is not None:
+            # Only a value that was accepted changes what the parameter follows
+            relink()
         self._post_setter(obj, val)
 
         if obj is not None:
